@@ -53,8 +53,8 @@ def make_sparse_from_indices_and_values(interp_indices, interp_values, num_rows)
         index_tensor = index_tensor.index_select(1, nonzero_indices)
         value_tensor = value_tensor.index_select(0, nonzero_indices)
     else:
-        index_tensor = index_tensor.resize_(interp_indices.dim(), 1).zero_()
-        value_tensor = value_tensor.resize_(1).zero_()
+        index_tensor = torch.zeros(interp_indices.dim(), 1, dtype=index_tensor.dtype, device=index_tensor.device)
+        value_tensor = torch.zeros(1, dtype=value_tensor.dtype, device=value_tensor.device)
 
     # Make the sparse tensor
     type_name = value_tensor.type().split(".")[-1]  # e.g. FloatTensor
@@ -174,8 +174,8 @@ def sparse_getitem(sparse, idxs):
                 indices = new_indices
                 values = values[mask]
             else:
-                indices.resize_(indices.size(0) - 1, 1).zero_()
-                values.resize_(1).zero_()
+                indices = torch.zeros(indices.size(0) - 1, 1, dtype=indices.dtype, device=indices.device)
+                values = torch.zeros(1, dtype=values.dtype, device=values.device)
 
             if not len(size):
                 return sum(values)
@@ -199,8 +199,8 @@ def sparse_getitem(sparse, idxs):
                 indices = new_indices
                 values = values[mask]
             else:
-                indices.resize_(indices.size(0), 1).zero_()
-                values.resize_(1).zero_()
+                indices = torch.zeros(indices.size(0), 1, dtype=indices.dtype, device=indices.device)
+                values = torch.zeros(1, dtype=values.dtype, device=values.device)
 
         else:
             raise RuntimeError("Unknown index type")
